@@ -118,6 +118,33 @@ def run(chk):
                                       input_text=gen_tmpl.print_file(f), template=n, env=env, results=[s[:200] for s in seen[:4]])
                     else:
                         chk.traces += 1
+            # L-POOL: the Coq model of the pool protocol against GetBuffer / WriteString / Bytes / ReleaseBuffer
+            sched = []
+            for _ in range(400 if quick else 10000):
+                live, steps, nxt = {}, [], 1
+                for _ in range(rng.randint(3, 25)):
+                    k = rng.random()
+                    if k < 0.3 or not live:
+                        steps.append("G%d:%d" % (nxt, rng.randint(0, 3)) if rng.random() < 0.7 else "G%d" % nxt)
+                        live[nxt] = True
+                        nxt += 1
+                    elif k < 0.75:
+                        r = rng.choice(sorted(live))
+                        steps.append("W%d:%s" % (r, common.hx(rng.choice(["<p>", "x", " \n", "~☢<", ">☢~", "</p>", "é"]))))
+                    else:
+                        r = rng.choice(sorted(live))
+                        steps.append("F%d:%d" % (r, rng.random() < 0.7))
+                        del live[r]
+                sched.append("pool " + ",".join(steps))
+            ia = common.run_lines(common.IMPLRUN, sched)
+            ma = common.run_lines_parallel(common.DRIVER, sched)
+            for l, a, m in zip(sched, ia, ma):
+                chk.case(l)
+                chk.count("pool-schedule")
+                if a != m:
+                    chk.broke("correspondence", "L-POOL", "Runtime/Pool.v and the real buffer pool disagree", input=l, impl=a, model=m)
+                else:
+                    chk.traces += 1
             chk.samples = [{"history_length": len(hist), "first": lines[0][:200]}, {"concurrent": "16 goroutines x rounds over 24 templates"}]
         finally:
             b.close()
